@@ -30,7 +30,16 @@ class Shadow:
         return [v for v, _m in self.stacks.get(k, [])]
 
 
-def history(chk, cl, bk, rnd, n_ops, idmap, interrupt=None):
+# fixed programs that run before the random ones: (operation, key index or status)
+SCRIPTS = [
+    # the oldest entry of a key is a null delete marker (written while versioning was suspended, over an object that predates versioning)
+    [("put", 0), ("status", "Enabled"), ("status", "Suspended"), ("delete", 0), ("status", "Enabled"), ("put", 0), ("put", 0), ("list",), ("put", 1), ("delete", 1), ("list",)],
+    # a null version under versions with ids, a delete marker on top, removed again by id
+    [("put", 0), ("status", "Enabled"), ("put", 0), ("put", 0), ("delete", 0), ("list",), ("delete-current", 0), ("list",), ("status", "Suspended"), ("put", 0), ("list",)],
+]
+
+
+def history(chk, cl, bk, rnd, n_ops, idmap, interrupt=None, script=None):
     ops, obs, text = [], [], []
     sh = Shadow()
     path = lambda k: "/%s/%s" % (bk, k)
@@ -276,12 +285,21 @@ def history(chk, cl, bk, rnd, n_ops, idmap, interrupt=None):
         chk.count("list:pages=%d" % min(pages, 3))
 
     # ---- the program
-    pre = rnd.random() < 0.6
+    if script is not None:
+        for st in script:
+            if st[0] == "put": do_put(KEYS[st[1]])
+            elif st[0] == "delete": do_delete(KEYS[st[1]])
+            elif st[0] == "delete-current": do_delete_version(KEYS[st[1]], current=True)
+            elif st[0] == "status": set_status(st[1])
+            elif st[0] == "list": do_list()
+            chk.traces += 1
+        n_ops = 0
+    pre = script is None and rnd.random() < 0.6
     if pre:
         for k in rnd.sample(KEYS, rnd.randint(1, 3)):
             do_put(k)
             if rnd.random() < 0.2: do_delete(k)
-    set_status("Enabled")
+    if script is None: set_status("Enabled")
     for _ in range(n_ops):
         k = rnd.choice(KEYS[:3] if rnd.random() < 0.9 else KEYS); x = rnd.random()
         if x < 0.28: do_put(k)
@@ -369,7 +387,7 @@ def run(chk):
                 chk.require(cl.req("PUT", "/" + bk).status == 200 and cl.req("PUT", "/%s-src" % bk).status == 200, "c09:setup", "CreateBucket failed")
                 idmap = {}
                 # (an overwrite killed before publication is C11's question; with the sidecar store it is a listed C11 finding)
-                ops, obs, text = history(chk, cl, bk, rnd, rnd.randint(15, 45), idmap, interrupt if label == "xattr" else None)
+                ops, obs, text = history(chk, cl, bk, rnd, rnd.randint(15, 45), idmap, interrupt if label == "xattr" else None, script=SCRIPTS[h - hbase] if h - hbase < len(SCRIPTS) else None)
                 hists.append((ops, obs, text))
                 chk.case(("hist", tuple(ops)), sum(1 for o in ops if o.startswith(("Put", "Delete"))) >= 3)
                 for d in (site.root, site.verdir):
